@@ -160,9 +160,22 @@ def ids(sx):
     return []
 
 
+# an integer beyond CPython's int->str conversion limit (4300 digits): a CBOR bignum delivers it; rendering it into a message raises ValueError
+HUGE = 10 ** 5000
+
+
+def _r(v):
+    if type(v) is int and v.bit_length() > 4096:
+        return "%s10**5000" % ("-" if v < 0 else "")
+    try:
+        return repr(v)[:40]
+    except ValueError:
+        return "<unrenderable>"
+
+
 def _menu(sx, tag):
     return [None, True, sx.int("mut." + tag, -2 ** 64, 2 ** 64), 1.5, "", "a b", "com.myapp.valid", "x", "com..bad", "é", b"x", [], [1], ["a"],
-            {}, {"a": 1}, {1: 2}]
+            {}, {"a": 1}, {1: 2}, HUGE, -HUGE]
 
 
 def mutate(sx, cname, slot, shape="full"):
@@ -214,7 +227,7 @@ def mutate(sx, cname, slot, shape="full"):
                 wire = wire[:-1] if len(REQ_LEN.get(cname, ())) == 0 else wire[:min(REQ_LEN[cname]) - 1]
             else:
                 wire = wire[:1]
-            info = dict(cls=cname, kind=kind, where=repr(where), value=repr(v)[:40], shape=shape)
+            info = dict(cls=cname, kind=kind, where=repr(where), value=_r(v), shape=shape)
             try:
                 m2 = cls.parse(wire)
             except (ProtocolError, InvalidUriError):
@@ -243,7 +256,7 @@ def mutate(sx, cname, slot, shape="full"):
                     # equivalent to the input: the accepted value is still there (an empty container / null at a trailing position may be left off)
                     present = len(w2) > where and bool(msglib.deep_eq(sx, w2[where], v))
                     dropped_empty = len(w2) <= where and (v is None or (isinstance(v, (list, dict)) and len(v) == 0))
-                    sx.check(present or dropped_empty, "accepted-value-survives-re-marshalling(equivalent-to-the-input)", info=dict(info, remarshalled=repr(w2)[:120]),
+                    sx.check(present or dropped_empty, "accepted-value-survives-re-marshalling(equivalent-to-the-input)", info=dict(info, remarshalled=_r(w2)),
                              known=[(_kid(cname, kind, where), True)])
             except Exception as e:  # noqa
                 sx.fail("accepted-message-cannot-be-re-marshalled", info=dict(info, exc=repr(e)[:160]), known=[(_kid(cname, kind, where), True)])
@@ -426,10 +439,10 @@ def typecode(sx, ser_id):
         m, kw = msglib.build(msglib_conc(), cname, [])
         base = m.marshal()
         code = base[0]
-        for v in (bool(code) if code in (0, 1) else None, True, False, float(code), str(code), None, [code], {"t": code}, -code, code + 1000, free):
+        for v in (bool(code) if code in (0, 1) else None, True, False, float(code), str(code), None, [code], {"t": code}, -code, code + 1000, HUGE, -HUGE, free):
             st = [v] + list(base[1:])
             s._serializer.unserialize = lambda payload, st=st: [st]
-            info = dict(cls=cname, first=repr(v)[:20], type=type(v).__name__)
+            info = dict(cls=cname, first=_r(v)[:20], type=type(v).__name__)
             try:
                 out = s.unserialize(b"whatever", ser_id != "json")
             except (ProtocolError, InvalidUriError):
